@@ -100,6 +100,7 @@ def _module_source(T: str, letters) -> tuple[str, list[tuple]]:  # noqa: N803
                 f"    def __init__(self, p: int) -> None:\n        self.ia{T}: int = p\n        self._iq{T}: int = p\n\n"
                 f"    def pm{T}(self, a: int) -> int:\n        return a\n\n"
                 f"    def _qm{T}(self) -> int:\n        return 1\n\n"
+                f"    def __dm{T}(self) -> int:\n        return 1\n\n"
                 f"    def __call__(self) -> int:\n        return 1\n\n"
                 f"    @property\n    def pr{T}(self) -> int:\n        return 1\n\n"
                 f"    @staticmethod\n    def sm{T}(a: int) -> int:\n        return a\n\n"
@@ -111,7 +112,7 @@ def _module_source(T: str, letters) -> tuple[str, list[tuple]]:  # noqa: N803
             d += [
                 ("class", f"Pc{T}", (), L, False), ("class_attr", f"ca{T}", c, L, False), ("class_attr", f"_cq{T}", c, L, False),
                 ("inst_attr", f"ia{T}", c, L, False), ("inst_attr", f"_iq{T}", c, L, False), ("method", f"pm{T}", c, L, False),
-                ("method", f"_qm{T}", c, L, False), ("method", "__call__", c, L, False), ("property", f"pr{T}", c, L, False),
+                ("method", f"_qm{T}", c, L, False), ("method", f"__dm{T}", c, L, False), ("method", "__call__", c, L, False), ("property", f"pr{T}", c, L, False),
                 ("static_method", f"sm{T}", c, L, False), ("class_method", f"cm{T}", c, L, False), ("class", f"Ni{T}", c, L, False),
                 ("method", f"nm{T}", (*c, f"Ni{T}"), L, False), ("class", f"_Nq{T}", c, L, False), ("method", f"nqm{T}", (*c, f"_Nq{T}"), L, False),
             ]  # fmt: skip
@@ -227,11 +228,14 @@ def build(spec: TreeSpec) -> TreeSpec | None:
             g.public = name_public(name) and path_public
             g.locations = {mod_dotted}
             for pkg, target, exported in exports:
+                via_private_pkg = exported.startswith("_") and spec.depth == 2 and spec.sub_private and pkg == f"{root}.{sub}"
+                hit = False
                 if target == name:
                     g.locations.add(pkg)
                     if name_public(exported):
                         g.public = True
                         g.aliases.add(exported)
+                    hit = True
                 elif target == "*" and name_public(name):
                     g.public = True
                     g.locations.add(pkg)
@@ -239,6 +243,16 @@ def build(spec: TreeSpec) -> TreeSpec | None:
                     g.locations.add(pkg)
                     if name_public(exported) and name_public(name):
                         g.public = True
+                    hit = name_public(name)
+                elif target == "*":
+                    hit = False
+                if via_private_pkg and (hit or (target == "*" and name_public(name))):
+                    # re-exported by the __init__ of a PRIVATE package under a public name: the statement's exception
+                    # ("unless a package __init__ re-exports it under a public name") does not say whether that counts
+                    private_pkg_export = exported[1:]
+                    if name_public(private_pkg_export) and (target != "*" or name_public(name)):
+                        g.aliases.add(private_pkg_export) if target == name else None
+                        g.dont_care = g.dont_care or not g.public
             top[name] = g
         decls.append(g)
     for g in decls:
@@ -250,6 +264,7 @@ def build(spec: TreeSpec) -> TreeSpec | None:
             g.public = ok and name_public(g.name)
             g.locations = set(owner.locations)
             g.is_exception = owner.is_exception
+            g.dont_care = owner.dont_care
     for kind, name, chain, letter, _ in idecls:
         g = GDecl(kind, name, root, chain, letter, in_init=True)
         g.public = name_public(name)
